@@ -34,6 +34,52 @@ fn main() {
         println!("{}", d.q("SELECT * FROM read_parquet('f.parquet')").brief());
         return;
     }
+    if args.len() >= 3 && args[1] == "replay" {
+        // vcheck replay <file>: re-executes a recorded violation without the explorer.
+        set_quiet(true);
+        let v: serde_json::Value = serde_json::from_str(&std::fs::read_to_string(&args[2]).expect("replay file")).expect("replay json");
+        let r = vharness::infra::Replay::from_json(&v);
+        println!("property={} key={}", r.property, r.key);
+        println!("recorded: expected {} / observed {}", r.expected, r.observed);
+        let mut d = Driver::new();
+        for (p, b) in &r.files {
+            d.fs.put(p, b.clone());
+        }
+        let nsess = r.steps.iter().map(|(s, _)| *s).max().unwrap_or(0);
+        for _ in 0..nsess {
+            d.new_session();
+        }
+        let n = r.steps.len();
+        for (i, (sess, sql)) in r.steps.iter().enumerate() {
+            let last = i + 1 == n;
+            if last {
+                let mut script = std::collections::BTreeMap::new();
+                for (ri, kind, arg) in &r.script {
+                    let a = match kind.as_str() {
+                        "short" => vharness::vfs::Answer::Short(*arg),
+                        "pending" => vharness::vfs::Answer::Pending,
+                        "err" => vharness::vfs::Answer::Err,
+                        _ => vharness::vfs::Answer::Full,
+                    };
+                    script.insert(*ri, a);
+                }
+                d.fs.set_script(script);
+            }
+            let o = match (&r.schedule, last) {
+                (Some(sch), true) => {
+                    let mut ps = vharness::sched::PrefixSched { prefix: sch, enabled_log: vec![], parked_log: vec![], diverged: None };
+                    let out = d.run(*sess, sql, &mut ps).outcome;
+                    if let Some(dv) = &ps.diverged {
+                        println!("  schedule diverged: {dv}");
+                    }
+                    out
+                }
+                _ => d.run(*sess, sql, &mut vharness::drv::Sequential).outcome,
+            };
+            println!("[s{sess}] {}\n  => {}", vharness::infra::one_line(sql, 400), o.brief());
+        }
+        return;
+    }
     if args.len() >= 3 && args[1] == "csv" {
         // vcheck csv <escaped content>...  (\n \r \t escapes)
         set_quiet(true);
